@@ -788,11 +788,45 @@ def run_C17(res):
                            themK=rnd.randrange(2), themQ=rnd.randrange(2), cf0=rnd.randrange(8), cf1=rnd.randrange(8), cf2=rnd.randrange(8),
                            cf3=rnd.randrange(8), hash=rnd.getrandbits(64), frc=rnd.randrange(2), ep=rnd.choice(["-", 40 + rnd.randrange(8)])))
         variants.append((p, f, mirror, pert))
+    # saturated material: one side a bare king to move (it may stand in check), the other side's king in the far corner with up to 62
+    # heavy pieces — the positions where |eval| is largest among everything set_fen accepts (no generator of legal play reaches them).
+    # "the range reserved for mate scores" is read off the CURRENT source (MATE_SCORE, MAX_DEPTH as extract.py regenerated them).
+    heavy_fens = []
+    for n in (9, 18, 30, 42, 55, 62):
+        for letters in ("Q", "QR", "QRBN"):
+            for white_heavy in (True, False):
+                free = [sq for sq in range(64) if sq not in (0, 63)]
+                rnd.shuffle(free)
+                board = {0: "K" if white_heavy else "k", 63: "k" if white_heavy else "K"}
+                for sq in free[:n]:
+                    c = rnd.choice(letters)
+                    board[sq] = c if white_heavy else c.lower()
+                rows = []
+                for r in range(7, -1, -1):
+                    row, gap = "", 0
+                    for fl in range(8):
+                        ch = board.get(r * 8 + fl)
+                        if ch is None:
+                            gap += 1
+                        else:
+                            row += (str(gap) if gap else "") + ch
+                            gap = 0
+                    rows.append(row + (str(gap) if gap else ""))
+                heavy_fens.append("/".join(rows) + (" b" if white_heavy else " w") + " - - 0 1")
+    heavy = [r for r in run_hx(["fenin " + f for f in heavy_fens]) if len(r.split()) > 10]
+    res.coverage["saturated_material_positions"] = len(heavy)
+    for p in heavy:
+        P = Pos(p)
+        variants.append((p, run_hx(["flip " + p])[0], str(P.with_(black=0 if P.black else 1)), p))
     reqs = ["eval " + x for v in variants for x in v]
     ei, em = run_hx_par(reqs), run_driver_par(reqs)
     compare(res, "eval", reqs, ei, em)
     ec = run_hx_par(reqs, "checked")
-    bound = 1000000 - 128
+    sc = open(os.path.join(vlib.VERIF, "lean", "Rawr", "Generated", "SearchConsts.lean")).read()
+    mate = int(re.search(r"def MATE_SCORE : Int := (-?\d+)", sc).group(1))
+    maxd = int(re.search(r"def MAX_DEPTH : Int := (-?\d+)", sc).group(1))
+    bound = mate - maxd
+    res.coverage["mate_band"] = {"MATE_SCORE": mate, "MAX_DEPTH": maxd, "largest_abs_eval_seen": None}
     for k, (p, f, mi, pe) in enumerate(variants):
         a, b, c, d = ei[4 * k:4 * k + 4]
         res.case(p, True, {"position": p, "eval": a, "eval_flipped": b})
@@ -806,7 +840,8 @@ def run_C17(res):
         if d != a:
             res.fail("eval depends on counters / rights / ep / key / flags", position=p, perturbed=pe, observed=(a, d))
         if not (-bound < int(a) < bound):
-            res.fail("eval outside the range reserved below mate scores", position=p, observed=a)
+            res.fail("eval outside the range reserved below mate scores", position=p, observed=a, mate_score=mate, max_depth=maxd)
+        res.coverage["mate_band"]["largest_abs_eval_seen"] = max(res.coverage["mate_band"]["largest_abs_eval_seen"] or 0, abs(int(a)))
 
 
 # ------------------------------------------------------------------ C18
